@@ -1,4 +1,5 @@
 import Prism.Proofs.C12
+import Prism.Proofs.C12Box
 import Prism.Proofs.C12Float
 
 #print axioms Prism.Alg.C12_white_to_white
@@ -6,6 +7,11 @@ import Prism.Proofs.C12Float
 #print axioms Prism.Alg.C12_compose
 #print axioms Prism.Alg.C12_inverse
 #print axioms Prism.Alg.C12_linear
+#print axioms Prism.C12_adapt_float_box
+#print axioms Prism.C12_apply_float_box
+#print axioms Prism.C12_white_to_white_float
+#print axioms Prism.C12_exact_laws
+#print axioms Prism.C12_identity_float_box
 #print axioms Prism.C12_apply_float_D65_D50
 #print axioms Prism.C12_apply_float_D50_D65
 #print axioms Prism.C12_exact_white_to_white
